@@ -22,6 +22,7 @@
    integrall <tank> <rtol> <atol> <qtol>                                 -> ok | bad <i>     (identity with the leak explicit)
    integral <tank> <rtol> <atol>                                         -> ok | bad <i>
    limits <tank> <secs> <atol>                                           -> ok | bad <i>
+   limitsmax <tank> <secs> <atol>                                        -> ok | bad <i>     (upper limit only)
    limflow <tank> <qtol>                                                 -> ok | bad <i>
    thr <tank> <attr> <rel> <thr> <secs> <atol> <i>                       -> ok | bad | na     (rows i, i+1)
    step <band> T <n> {<tank> <head>}*n L <n> {<status> <setting> <cvpump> <k> {<tank>}*k}*n
@@ -350,6 +351,13 @@ def handle (d : DState) (line : String) : DState × String :=
     | some tid, some secs, some atol =>
       match d.tank? tid with
       | some t => (d, showBad (tankLimitsFirstBad d.pi t secs atol (d.rows? tid) 0))
+      | none => (d, "bad-op")
+    | _, _, _ => (d, "bad-op")
+  | ["limitsmax", t, secs, atol] =>
+    match t.toNat?, parseRat secs, parseRat atol with
+    | some tid, some secs, some atol =>
+      match d.tank? tid with
+      | some t => (d, showBad (tankLimitsMaxFirstBad d.pi t secs atol (d.rows? tid) 0))
       | none => (d, "bad-op")
     | _, _, _ => (d, "bad-op")
   | ["limflow", t, qtol] =>
